@@ -121,12 +121,8 @@ class PathNode(ConfigList):
             if self.ayns.source_file is None:
                 raise ValueError('!path node with :parent reference requires to know source file of the node, but the node is missing this information')
             src = pathlib.Path(self.ayns.source_file)
-            if ref_point_args >= len(src.parents):
-                diff = ref_point_args - len(src.parents) + 1
-                ref_point_args = len(src.parents) - 1
-                args = ['..'] * diff + args
-
-            ret = src.parents[ref_point_args].joinpath(*args)
+            # go up from the folder of the file, the normpath below folds it (lexical parents stop at a leading '..')
+            ret = src.parent.joinpath(*['..'] * ref_point_args, *args)
         elif ref_point == 'abs':
             ret = pathlib.Path(ref_point_args).joinpath(*args)
         else:
